@@ -449,15 +449,41 @@ theorem disk_roundtrip (um : Nat) (m : List (Nat × Bal)) (hl : m.length < 2 ^ 6
   unfold loadMap
   simp only [loadPairs_saveMap um m hl hk extra]
 
-/-- Observation about the unchanged code, as a fact of the model: when `load_map` cannot open the file or one of its
-    own reads fails (count, a record key), it returns WITHOUT assigning `allBalances[idx]` — the map that was there
-    before (after `InitMaps`: an empty, non-nil one) stays, so `LoadBalances`' `allBalances[i] == nil` test cannot
-    notice it. `_partial`: says nothing about which files make `loadPairs` fail beyond the examples below. -/
-theorem load_corrupt_keeps_previous_partial (um : Nat) (prev : List (Nat × Option Bal)) :
-    loadMap um none prev = prev ∧ ∀ f, loadPairs um f = none → loadMap um (some f) prev = prev := by
-  refine ⟨rfl, fun f h => ?_⟩
-  unfold loadMap
-  simp only [h]
+/-- `load_map` never stores a nil record (fix in client/wallet/disk.go: a record that cannot be read — file cut inside it, entry
+    count 0 — refuses the file): every file it accepts holds exactly the announced number of records, each a real record. -/
+theorem loaded_map_has_no_nil_record (um : Nat) (f : Bytes) (l : List (Nat × Option Bal)) (h : loadPairs um f = some l) :
+    ∀ p ∈ l, p.2.isSome = true := by
+  unfold loadPairs at h
+  split at h
+  · cases h
+  · exact (loadRecs_all_some um _ _ _ h).2
+
+/-- LoadBalances as an ENABLING event (`loadAll` = all address-type files; `none` = the load is refused: InitMaps(true), error
+    returned, WalletON stays false, the client falls back to LoadBalancesFromUtxo = the model's `.enable`): it switches the index on
+    only if EVERY file was there and was accepted completely, and then every loaded record is a real one; a single missing or
+    refused file refuses the whole load.  (Before the fix the test was `allBalances[i] == nil`, which a file cut inside its last
+    record — stored with a nil record — and, after a Disable, ANY failed file passed: the index went on with a wrong map, the
+    negation of C17.  Kept in the corpus: harness stream disk-corrupt.) -/
+theorem load_balances_all_or_nothing (um : Nat) (fs : List (Option Bytes)) :
+    (∀ ls, GocoinV.Model.BalancesDisk.loadAll um fs = some ls →
+      ls.length = fs.length ∧ (∀ f ∈ fs, ∃ b, f = some b ∧ (loadPairs um b).isSome = true) ∧ ∀ l ∈ ls, ∀ p ∈ l, p.2.isSome = true) ∧
+    ((∃ f ∈ fs, f = none ∨ ∃ b, f = some b ∧ loadPairs um b = none) → GocoinV.Model.BalancesDisk.loadAll um fs = none) :=
+  ⟨fun ls h => loadAll_some um fs ls h, loadAll_none_of um fs⟩
+
+/-- … and on what SaveBalances wrote for an index as the invariant keeps it, LoadBalances gives back, per address type, exactly
+    the saved map (keys, Values, entries; layout re-chosen by `norm`) — so enabling through the cache at the block the cache was
+    written for yields the same index as the one that was saved, which `balances_eq_projection` shows to be the projection. -/
+theorem load_balances_roundtrip (um : Nat) (ms : List (List (Nat × Bal)))
+    (hl : ∀ m ∈ ms, m.length < 2 ^ 64) (hk : ∀ m ∈ ms, ∀ p ∈ m, p.1 < 2 ^ 64 ∧ WFBal p.2) :
+    GocoinV.Model.BalancesDisk.loadAll um (ms.map (fun m => some (saveMap m)))
+      = some (ms.map (fun m => (m.map (fun p => (p.1, some (norm um p.2)))).reverse)) := by
+  induction ms with
+  | nil => rfl
+  | cons m rest ih =>
+    have h1 := loadPairs_saveMap um m (hl m (by simp)) (hk m (by simp)) []
+    simp only [List.append_nil] at h1
+    simp only [List.map_cons, GocoinV.Model.BalancesDisk.loadAll, h1,
+      ih (fun x hx => hl x (List.mem_cons_of_mem _ hx)) (fun x hx => hk x (List.mem_cons_of_mem _ hx))]
 
 /-! ### non-vacuity -/
 
@@ -470,8 +496,8 @@ def exH : Bytes → Nat := fun b => b.length
 
 /-- a history satisfying the hypotheses: enable on the empty set, connect a record, spend one output,
     undo that, switch off and on again with another minimum -/
-def exEvs : List Ev := [.enable 5 2, .add exRec, .del exRec.key [true, false, false],
-  .undoDel exRec.key 3, .add exRec, .disable, .enable 4 0]
+def exEvs : List Ev := [.enable 5 2, .add exRec, .del exRec.txid [true, false, false],
+  .undoDel exRec.txid 3, .add exRec, .disable, .enable 4 0]
 
 example : AdmissibleRun exH State.init exEvs := by
   refine ⟨trivial, ?_, trivial, trivial, ?_, trivial, trivial, trivial⟩ <;> (show aget _ _ = none) <;> decide +kernel
@@ -505,7 +531,7 @@ example : qual { min := 5, useMapCnt := 2 } exH exOut0 (2, 20) := by
     spending the zero-valued one as well removes the record. -/
 def zOut0 : Out := { value := 0, script := exScr }
 def zRec : Rec := { txid := List.replicate 32 9, inBlock := 6, coinbase := false, outs := [some zOut0, some exOut0, some zOut0] }
-def zEvs (um : Nat) : List Ev := [.enable 0 um, .add zRec, .del zRec.key [false, true, false]]
+def zEvs (um : Nat) : List Ev := [.enable 0 um, .add zRec, .del zRec.txid [false, true, false]]
 
 example : AdmissibleRun exH State.init (zEvs 5000) := by
   refine ⟨trivial, ?_, trivial, trivial⟩; (show aget _ _ = none); decide +kernel
@@ -517,10 +543,10 @@ example : total exH (run exH State.init (zEvs 5000)) exAddr = 0 ∧
     (aget (exAddr.idx, exH exAddr.payload) (run exH State.init (zEvs 5000)).bal).isSome = true := by decide +kernel
 example : (getAllUnspent exH (run exH State.init (zEvs 1)) exAddr).length = 2 ∧
     total exH (run exH State.init (zEvs 1)) exAddr = 0 := by decide +kernel
-example : getAllUnspent exH (run exH State.init (zEvs 3 ++ [.del zRec.key [true, false, false]])) exAddr =
+example : getAllUnspent exH (run exH State.init (zEvs 3 ++ [.del zRec.txid [true, false, false]])) exAddr =
     [{ txid := List.replicate 32 9, vout := 2, value := 0, minedAt := 6, coinbase := false }] := by decide +kernel
 example : aget (exAddr.idx, exH exAddr.payload)
-    (run exH State.init (zEvs 3 ++ [.del zRec.key [true, false, true]])).bal = none := by decide +kernel
+    (run exH State.init (zEvs 3 ++ [.del zRec.txid [true, false, true]])).bal = none := by decide +kernel
 example : scriptForm exScr = some (2, List.replicate 20 1) := by decide +kernel
 example : ∀ p, scriptForm exOut0.script = some (exAddr.idx, p) → exH p = exH exAddr.payload → p = exAddr.payload := by
   intro p h _
@@ -555,6 +581,46 @@ example : (loadFromUtxo entU exH (fun n => n == 1) bUtxo (Static.init 4) [bRaw2,
 example : (loadFromUtxoR entU exH (fun _ => false) (fun n => if n = 1 then some 8 else none) bUtxo (Static.init 4) [bRaw2, bRaw1] 5 2).map
     (fun p => (p.1.on, p.1.cfg.min, p.1.bal.map (fun kb => kb.2.value))) = some (true, 5, [14]) := by decide +kernel
 
+/-! `.undoAdd` — the only event whose admissibility condition is not trivial — in an admissible history with the index ON: the
+    10-value output of `zRec` is spent by a block (`.del … [false, true, false]`), the block is disconnected and UndoBlockTxs puts
+    the output back into the PARTIALLY SPENT stored record (`uRec1` carries only the restored slot; same slot count; the slot is nil
+    in the stored record `zSpent`).  List mode (useMapCnt 5000) and map mode (useMapCnt 1): three outputs again, total 10. -/
+def zSpent : Rec := { zRec with outs := [some zOut0, none, some zOut0] }
+def uRec1 : Rec := { zRec with outs := [none, some exOut0, none] }
+def uEvs (um : Nat) : List Ev := zEvs um ++ [.undoAdd uRec1]
+
+theorem undoAdd_example_restores_only_spent_slots (j : Nat) (o : Out) (hj : outAt uRec1.outs j = some o) :
+    outAt zSpent.outs j = none := by
+  match j, hj with
+  | 0, hj => simp [uRec1, outAt] at hj
+  | 1, _ => rfl
+  | 2, hj => simp [uRec1, outAt] at hj
+  | (j + 3), hj => simp [uRec1, outAt] at hj
+
+example : AdmissibleRun exH State.init (uEvs 5000) := by
+  refine ⟨trivial, ?_, trivial, ?_, trivial⟩
+  · show aget _ _ = none; decide +kernel
+  · intro old h
+    have hg : aget uRec1.key (step exH (step exH (step exH State.init (.enable 0 5000)) (.add zRec)) (.del zRec.txid [false, true, false])).utxo
+        = some zSpent := by decide +kernel
+    rw [hg] at h
+    cases h
+    exact ⟨by decide, undoAdd_example_restores_only_spent_slots⟩
+example : AdmissibleRun exH State.init (uEvs 1) := by
+  refine ⟨trivial, ?_, trivial, ?_, trivial⟩
+  · show aget _ _ = none; decide +kernel
+  · intro old h
+    have hg : aget uRec1.key (step exH (step exH (step exH State.init (.enable 0 1)) (.add zRec)) (.del zRec.txid [false, true, false])).utxo
+        = some zSpent := by decide +kernel
+    rw [hg] at h
+    cases h
+    exact ⟨by decide, undoAdd_example_restores_only_spent_slots⟩
+example : (getAllUnspent exH (run exH State.init (uEvs 5000)) exAddr).map (fun u => (u.vout, u.value)) = [(0, 0), (2, 0), (1, 10)] ∧
+    total exH (run exH State.init (uEvs 5000)) exAddr = 10 ∧
+    (aget (exAddr.idx, exH exAddr.payload) (run exH State.init (uEvs 5000)).bal).map (·.isMap) = some false := by decide +kernel
+example : (getAllUnspent exH (run exH State.init (uEvs 1)) exAddr).length = 3 ∧ total exH (run exH State.init (uEvs 1)) exAddr = 10 ∧
+    (aget (exAddr.idx, exH exAddr.payload) (run exH State.init (uEvs 1)).bal).map (·.isMap) = some true := by decide +kernel
+
 /-! disk cache: a list-layout record and a record that comes back in the map layout -/
 def dBal1 : Bal := { value := 150000, unsp := [(List.replicate 8 3, 1)], isMap := false }
 def dBal2 : Bal := { value := 7, unsp := [(List.replicate 8 4, 0), (List.replicate 8 5, 70000)], isMap := true }
@@ -562,10 +628,14 @@ def dMap : List (Nat × Bal) := [(11, dBal1), (18446744073709551615, dBal2)]
 example : loadMap 2 (some (saveMap dMap)) [] = [(18446744073709551615, some dBal2), (11, some dBal1)] := by decide +kernel
 example : WFBal dBal1 := ⟨by decide, by decide, by intro i hi; simp [dBal1] at hi; subst hi; exact ⟨by decide, by decide⟩, by decide, by decide +kernel, by decide⟩
 example : readVarInt (writeVarInt 18446744073709551615) = some (18446744073709551615, []) := by decide +kernel
-/-- a file cut inside the LAST record: the loop ends with a nil pointer stored for that key (Browse would dereference it) -/
-example : loadPairs 2 ((saveMap dMap).take ((saveMap dMap).length - 1)) = some [(11, some dBal1), (18446744073709551615, none)] := by
-  decide +kernel
-/-- a file cut inside a record that is not the last: the next key read fails, the previous map is kept -/
+/-- a file cut inside the LAST record is refused (before the fix: accepted with a nil pointer stored for that key, the index
+    went on and Browse dereferenced it — harness key cache-corrupt-enables-wrong-index, file P2KH cut by one byte) -/
+example : loadPairs 2 ((saveMap dMap).take ((saveMap dMap).length - 1)) = none := by decide +kernel
+/-- a file cut inside a record that is not the last: the next key read fails -/
 example : loadPairs 2 ((saveMap dMap).take 12) = none := by decide +kernel
+/-- all-or-nothing over the files: one cut file among good ones refuses the load; the good ones alone load -/
+example : GocoinV.Model.BalancesDisk.loadAll 2 [some (saveMap dMap), some ((saveMap dMap).take 30), some (saveMap [])] = none ∧
+    GocoinV.Model.BalancesDisk.loadAll 2 [some (saveMap dMap), none] = none ∧
+    (GocoinV.Model.BalancesDisk.loadAll 2 [some (saveMap dMap), some (saveMap [])]).isSome = true := by decide +kernel
 
 end GocoinV.Props.C17
